@@ -6,7 +6,7 @@ import random
 from stv import envshim  # noqa: F401
 
 
-def small_space(rng, with_const=True, finite=False, ensure_infinite=False):
+def small_space(rng, with_const=True, finite=False, ensure_infinite=False, ordinal_kinds=("equal", "nn")):
     """A small mixed config space (JSON description -> built by build_space)."""
     kinds = ["uniform", "loguniform", "randint", "choice", "finrange", "lograndint", "ordinal"]
     if finite:
@@ -31,7 +31,7 @@ def small_space(rng, with_const=True, finite=False, ensure_infinite=False):
             desc[name] = ["choice", [f"c{j}" for j in range(m)]]
         elif k == "ordinal":
             m = rng.randint(2, 4)
-            desc[name] = ["ordinal", sorted(rng.sample(range(1, 40), m)), rng.choice(["equal", "nn"])]
+            desc[name] = ["ordinal", sorted(rng.sample(range(1, 40), m)), rng.choice(list(ordinal_kinds))]
         elif k == "finrange":
             desc[name] = ["finrange", 0.0, 1.0, rng.randint(2, 4)]
     if ensure_infinite and space_size(desc) is not None:
